@@ -4,6 +4,12 @@ Three-way check per generated model (documented export subset):
  (P)  values of the exported package, imported in a sub-process where `import modelx`
       is blocked, == values of the model, for every cells and several arguments, in
       static / derived / nested / ItemSpace spaces, also with every cached flag flipped;
+      includes "probe" cells (pr1..pr3) over references whose values are instances of SUBCLASSES of
+      int/float/str (IntEnum / StrEnum members of http and signal, float/str/int subclasses of
+      harness/c15lits.py): type(r).__name__, .name, .value, subclass methods, arithmetic; values are
+      compared with their exact type (c15gen.canon tags them ["sub", module.qualname, base value]).
+      Such references must be pickled by the exporter, never written as literals.  They are opaque
+      in the (E) tables and probe queries are (P)-only (no strings / enum members in Gallina);
  (T)  the output of the real FormulaTransformer on every generated formula, parsed back
       into the formula grammar, == Gallina [transform] (Export/Model.v) on the same
       formula (vm_compute, expr_eqb): this ties [classify_global]/[replace] to
@@ -41,7 +47,9 @@ ASSUMPTIONS = ["(T) and (E) cover formulas inside the grammar of Export/Model.v 
                "closures capture their environment by value in the Gallina evaluator (generated formulas assign every local once, before any "
                "capture; a nested def sees itself)",
                "module globals of the generated package (_mx_sys, _m_<space>) and the extra underscore attributes of space objects are not modelled",
-               "default values of cells parameters and pandas/IOSpec-backed references are covered by (P) only / not generated"]
+               "default values of cells parameters and pandas/IOSpec-backed references are covered by (P) only / not generated",
+               "references whose values are instances of subclasses of int/float/str (enum members, c15lits classes) and the probe cells "
+               "reading them are covered by (P) and the module-level-names check only; they are opaque values in the evaluator tie (E)"]
 
 
 # --------------------------------------------------------------------------
